@@ -149,8 +149,13 @@ for _ctor, _params, _post in (
 # ------------------------------------------------------------------------------ reporters and output modes
 # Ghost streams: a printer is an opaque FilePrinter; everything written through it is an event.
 
+class _FileOfPrinterI(Interface):
+    methods = {'flush': Method(event='flush')}
+
+
 class PrinterI(Interface):
     target_class = FilePrinter
+    attrs = {'file': Iface(_FileOfPrinterI)}
     methods = {
         'write_colored_line': Method(event='line', params=['line', 'color']),
         'write_line': Method(event='line', params=['line', 'indent']),
@@ -442,6 +447,108 @@ M.contract('exactly_lib.processing.standalone.processor:Processor._executor',
            and calls(trace)[0][1]['exe_configuration'].exe_atc_and_skip_assertions
            is result_reporter.execute_atc_and_skip_assertions()},
            raises_only=())
+
+
+# ------------------------------------------------------------------------------ a test case beside a broken suite file
+# A case run on its own takes its configuration from the `exactly.suite` beside it (or --suite): a syntax error in
+# THAT file also "prevents execution", and is reported through the same three output modes: the identifier line on
+# stdout in normal mode only; with --keep and --act stdout belongs to the sandbox path / the action's output, and
+# the identifier goes to stderr.
+from exactly_lib.test_suite.file_reading.exception import SuiteParseError as _SuiteParseError
+from exactly_lib.test_suite import error_reporting as _suite_error_reporting
+from exactly_lib.common import result_reporting as _common_result_reporting
+
+EXIT_VALUE = Inst(ExitValue, _tuple=[Int, Str, EnumOf(ForegroundColor)])
+
+
+class _DocParseErrorI(Interface):
+    """the ParseError of the document parser inside a SuiteParseError; `accept(_GetParseErrorExitValue())` gives
+    the exit value (SYNTAX_ERROR / FILE_ACCESS_ERROR: constants of processing.exit_values, check `constants`)"""
+    methods = {'accept': Method(returns=EXIT_VALUE, event='exit-value-of-parse-error')}
+
+
+SUITE_PARSE_ERROR = Inst(_SuiteParseError, _suite_file=Any_, _maybe_section_name=Any_,
+                         _document_parser_exception=Iface(_DocParseErrorI))
+
+
+class _CaseProcessorI(Interface):
+    methods = {'apply': Method(returns=RESULT2, ensures=lambda self, test_case, result: result_is_well_formed(result)
+                               and ((not _completed(result))
+                                    or result.execution_result.action_to_check_outcome is not None),
+                               event='apply-processor')}
+
+
+class _SettingsI(Interface):
+    attrs = {'reporting_option': EnumOf(ReportingOption), 'test_case_file_path': Any_, 'handling_setup': Any_,
+             'run_as_part_of_explicit_suite': Any_, 'sandbox_root_dir_resolver': Any_}
+
+
+M.contract('exactly_lib.processing.standalone.processor:Processor._processor', trusted=True,
+           params=dict(self=Any_, settings=Any_, result_reporter=Any_), returns=Iface(_CaseProcessorI),
+           may_raise=(SUITE_PARSE_ERROR,), event='resolve-processor')
+M.contract('exactly_lib.test_suite.error_reporting:_suite_parse_error_renderer', trusted=True, params=dict(ex=Any_),
+           returns=Any_)
+M.contract('exactly_lib.common.result_reporting:print_major_blocks', trusted=True,
+           params=dict(blocks_renderer=Any_, printer=Iface(PrinterI)), event='error-message')
+M.contract('exactly_lib.processing.test_case_processing:test_case_reference_of_source_file', trusted=True,
+           params=dict(source_file=Any_), returns=Any_)
+M.trust('standalone Processor._processor (reads the suite file, builds accessor and executor: C17, C03) returns a '
+        'processor or raises SuiteParseError; a processor returns a well formed Result (C18); print_major_blocks '
+        'writes only to the printer it is given')
+
+
+def _suite_error_of(trace):
+    es = [e for e in trace if e[0] == 'resolve-processor:raised']
+    return es[0][2] if es else None
+
+
+def _identifier_where_the_mode_puts_it(settings, reporting_environment, ret, trace):
+    ex = _suite_error_of(trace)
+    if ex is None:
+        return True
+    ev = [e[2] for e in trace if e[0] == 'exit-value-of-parse-error:returned'][0]
+    out, err = reporting_environment.std_file_printers.out, reporting_environment.std_file_printers.err
+    if settings.reporting_option is ReportingOption.STATUS_CODE:
+        on_stdout = lines_on(trace, out) == [ev.exit_identifier] and len(touched(trace, out)) == 1
+    else:
+        on_stdout = touched(trace, out) == [] and lines_on(trace, err)[:1] == [ev.exit_identifier]
+    return on_stdout and ret == ev.exit_code
+
+
+_SUITE_ERROR_REPLAY = '''
+import subprocess, tempfile, pathlib
+import exactly_lib
+runner = pathlib.Path(exactly_lib.__file__).parent.parent / 'default-main-program-runner.py'
+bad = []
+with tempfile.TemporaryDirectory() as d:
+    d = pathlib.Path(d)
+    (d / 'a.case').write_text('[act]\\n$ true\\n')
+    (d / 'exactly.suite').write_text('[no-such-section]\\nx\\n')
+    for option in ('--keep', '--act'):
+        p = subprocess.run([sys.executable, '-W', 'ignore', str(runner), option, 'a.case'], cwd=str(d),
+                           capture_output=True, text=True, env=dict(os.environ, PYTHONPATH=str(runner.parent)))
+        print(option, 'exit', p.returncode, 'stdout', repr(p.stdout), 'stderr starts', repr(p.stderr[:40]))
+        if p.stdout != '' or not p.stderr.startswith('SYNTAX_ERROR') or p.returncode != 65:
+            bad.append(option)
+if bad:
+    print('a syntax error in the suite file beside the case: the identifier is printed on stdout with', bad)
+    sys.exit(1)
+sys.exit(0)
+'''
+
+M.contract('exactly_lib.processing.standalone.processor:Processor.process', replay=lambda model, rf: _SUITE_ERROR_REPLAY,
+           params=dict(self=Inst(standalone_processor.Processor, _test_case_definition=Any_, _os_services=Any_,
+                                 _suite_configuration_section_parser=Any_, _mem_buff_size=Int),
+                       reporting_environment=ENVIRONMENT, settings=Iface(_SettingsI)),
+           returns=Int,
+           ensures={
+               'a syntax error of the suite file: identifier on stdout in normal mode only, else on stderr; the '
+               'exit code that belongs to it': lambda settings, reporting_environment, ret, trace:
+               _identifier_where_the_mode_puts_it(settings, reporting_environment, ret, trace),
+               'otherwise the case is processed once and reported by the reporter of the output mode':
+                   lambda trace: _suite_error_of(trace) is not None
+                   or len([e for e in trace if e[0] == 'apply-processor']) == 1,
+           }, raises_only=())
 
 
 @M.check('status names')
